@@ -94,3 +94,146 @@ def runContainerOpen (args : List String) : IO String := do
   | _ => return "bad-args"
 
 end Jubako.Driver
+
+namespace Jubako.Driver
+open Jubako
+
+/-- the whole reader script of the damaged-file runner, with the implementation's "first error
+    aborts the script" semantics: `Container::new`, every entry of index "main" with its values and
+    its content streamed, then `Container::check` -/
+def containerReadScript (fs : FS) (entry decdir : String) : IO (Outcome String) := do
+  match containerOpen fs entry with
+  | .ok c =>
+    match decodeDirPack c.dirPack with
+    | .ok d =>
+      match d.indexes.find? (fun ix => ix.name == strBytes "main") with
+      | none => return .err .other
+      | some ix =>
+        match d.stores[ix.storeId]? with
+        | some (.ok (l, data)) =>
+          let getVS : Nat → Outcome (ValueStoreTail × Bytes) := fun i =>
+            match d.vstores[i]? with
+            | some r => r
+            | none => .panic "value store index out of bounds"
+          -- AnyBuilder::new opens the value stores of every array property first
+          for p in l.common ++ (l.variants.map (·.2)).flatten do
+            match p.kind with
+            | .array _ _ (some (_, st)) _ =>
+              match getVS st with
+              | .ok _ => pure ()
+              | .err k => return .err k
+              | .panic s => return .panic s
+              | .hang => return .hang
+              | .fault => return .fault
+            | _ => pure ()
+          let mut packCache : List (Nat × Outcome (Option DecPack) × String) := []
+          let mut lines : List String := [s!"count {ix.count}"]
+          for k in [0:ix.count] do
+            let gi := ix.offset + k
+            if gi ≥ l.entryCount then return .err .other
+            let stride := if l.checked then l.entrySize + 4 else l.entrySize
+            match decodeEntry getVS l (slice data (gi * stride) l.entrySize) with
+            | .ok e =>
+              match lookupVal e.values "name", lookupVal e.values "num", lookupVal e.values "content" with
+              | some (.arr nm), some (.u num), some (.content p i) =>
+                let cached := packCache.find? (fun x => x.1 == p)
+                let (dp, status) ← match cached with
+                  | some (_, dp, st) => pure (dp, st)
+                  | none => do
+                    let r : Outcome (Option DecPack) × String ← (match containerGetPack fs c p with
+                      | .ok .unknown => pure (.ok none, "nopack")
+                      | .ok (.missing info) => pure (.ok none, s!"missing:{toHex info.uuid}:{locationString info.location}")
+                      | .ok (.found bytes) => do
+                        let uu := match (do let hd ← readBlock bytes 0 60; PackHeader.decode hd : Outcome PackHeader) with
+                          | .ok h => toHex h.uuid
+                          | _ => "nouuid"
+                        -- ContentPack::new only; clusters are opened lazily per content
+                        match contentOpen bytes with
+                        | .ok _ =>
+                          match ← decodeContentPack bytes s!"{decdir}/{uu}" with
+                          | .ok dp => pure (.ok (some dp), "found")
+                          | _ => pure (.ok none, "lazy-cluster-error")
+                        | .err k => pure (.err k, "")
+                        | .panic s => pure (.panic s, "")
+                        | .hang => pure (.hang, "")
+                        | .fault => pure (.fault, "")
+                      | .err k => pure (.err k, "")
+                      | .panic s => pure (.panic s, "")
+                      | .hang => pure (.hang, "")
+                      | .fault => pure (.fault, "") : IO (Outcome (Option DecPack) × String))
+                    packCache := (p, r.1, r.2) :: packCache
+                    pure r
+                match dp with
+                | .err k => return .err k
+                | .panic s => return .panic s
+                | .hang => return .hang
+                | .fault => return .fault
+                | .ok none =>
+                  if status = "lazy-cluster-error" then
+                    -- a cluster of that pack does not parse: decide per content with the model reader
+                    match containerGetPack fs c p with
+                    | .ok (.found bytes) =>
+                      match contentGet (fun _ _ => none) bytes i with
+                      | .err k => return .err k
+                      | .panic s => return .panic s
+                      | _ => return .err .other
+                    | _ => return .err .other
+                  else lines := lines ++ [s!"e{k} name={toHexP nm} num={num} addr={p}:{i} data={status}"]
+                | .ok (some dp) =>
+                  match dp.infos[i]? with
+                  | none => lines := lines ++ [s!"e{k} name={toHexP nm} num={num} addr={p}:{i} data=nocontent"]
+                  | some (cl, blob) =>
+                    match dp.clusters[cl]? with
+                    | none => return .err .format
+                    | some cc =>
+                      let bounds := (0 :: cc.tail.offsets) ++ [cc.tail.dataSize]
+                      let b0 := bounds.getD blob 0
+                      let b1 := bounds.getD (blob + 1) 0
+                      if blob + 1 ≥ bounds.length then return .panic "cluster.rs: blob index out of bounds"
+                      else if b1 < b0 then return .panic "offset.rs: subtraction underflow"
+                      else if cc.tail.comp = 0 then
+                        -- raw cluster: the region is cut in the file; reading past it is an I/O error
+                        if b1 ≤ cc.payload.length then
+                          let b := slice cc.payload b0 (b1 - b0)
+                          lines := lines ++ [s!"e{k} name={toHexP nm} num={num} addr={p}:{i} data={b.length}:{hex64 (fnv64 b)}"]
+                        else return .err .io
+                      else if b1 ≤ cc.plain.length then
+                        let b := slice cc.plain b0 (b1 - b0)
+                        lines := lines ++ [s!"e{k} name={toHexP nm} num={num} addr={p}:{i} data={b.length}:{hex64 (fnv64 b)}"]
+                      else return .err .io       -- decoder failed or ended before this content (repaired code, D11)
+              | _, _, _ => return .err .other
+            | .err k => return .err k
+            | .panic s => return .panic s
+            | .hang => return .hang
+            | .fault => return .fault
+          let chk := match containerCheck H fs c with
+            | .ok true => "true"
+            | .ok false => "false"
+            | .err k => "err:" ++ k.toString
+            | .panic s => "panic " ++ s
+            | _ => "crash"
+          return .ok (s!"check={chk} " ++ ";".intercalate lines)
+        | some (.err k) => return .err k
+        | some (.panic s) => return .panic s
+        | some _ => return .hang
+        | none => return .panic "store index"
+    | .err k => return .err k
+    | .panic s => return .panic s
+    | _ => return .hang
+  | .err k => return .err k
+  | .panic s => return .panic s
+  | _ => return .hang
+
+def runContainerRead (args : List String) : IO String := do
+  match args with
+  | [dir, entry, decdir] =>
+    let fs ← readDirFS dir
+    match ← containerReadScript fs entry decdir with
+    | .ok s => return "value " ++ s
+    | .err _ => return "error"
+    | .panic s => return "crash panic " ++ s
+    | .hang => return "crash hang"
+    | .fault => return "crash fault"
+  | _ => return "bad-args"
+
+end Jubako.Driver
